@@ -95,4 +95,78 @@ theorem remove_then_ops (t : Tree) (u : Nat) (ops : List Op) (hn : t.uids.Nodup)
 example : (step exTree (.remove 2)).1.uids = [1, 5] := by decide
 example : (step exTree (.remove 1)).2 = .refused := by decide
 
+/-! ### removing a whole list of children -/
+
+/-- a detach never brings an identifier into the tree -/
+theorem detach_uids_subset (t : Tree) (u : Nat) (hn : t.uids.Nodup) (x : Nat)
+    (hx : x ∈ (step t (.detach u)).1.uids) : x ∈ t.uids := by
+  cases hf : t.findSub u with
+  | none => simpa [step, hf] using hx
+  | some s =>
+    by_cases hroot : u = t.ent.uid
+    · subst hroot
+      simpa [step, hf] using hx
+    · have h := (detach_exact t s u hn hf hroot).2
+      exact (h.mem_iff).mp (List.mem_append_left _ hx)
+
+/-- `parent.remove_children(children)` for a list of entities: one detach after the other -/
+def detachAll (t : Tree) (us : List Nat) : Tree := us.foldl (fun s u => (step s (.detach u)).1) t
+
+theorem detachAll_nodup (us : List Nat) : ∀ (t : Tree), t.uids.Nodup → (detachAll t us).uids.Nodup := by
+  induction us with
+  | nil => intro t hn; exact hn
+  | cons u us ih => intro t hn; exact ih _ (step_nodup t (.detach u) hn)
+
+theorem detachAll_subset (us : List Nat) : ∀ (t : Tree), t.uids.Nodup → ∀ x ∈ (detachAll t us).uids, x ∈ t.uids := by
+  induction us with
+  | nil => intro t _ x hx; exact hx
+  | cons u us ih =>
+    intro t hn x hx
+    exact detach_uids_subset t u hn x (ih _ (step_nodup t (.detach u) hn) x hx)
+
+/-- **Removing a whole list of children removes every one of them**, in whatever order the list names them and however the
+    removals shrink the tree underneath (the list is the caller's: `obj.remove_children(obj.children)` included): afterwards
+    none of the listed entities (other than the root) is in the tree, nor any of their descendants. -/
+theorem detachAll_gone (us : List Nat) : ∀ (t : Tree), t.uids.Nodup → ∀ u ∈ us, u ≠ t.ent.uid →
+    u ∉ (detachAll t us).uids := by
+  induction us with
+  | nil => intro t _ u hu; cases hu
+  | cons v vs ih =>
+    intro t hn u hu hroot
+    have hn' := step_nodup t (.detach v) hn
+    have hrootEq : (step t (.detach v)).1.ent.uid = t.ent.uid := by
+      cases hf : t.findSub v with
+      | none => simp [step, hf]
+      | some s =>
+        by_cases hr : v = t.ent.uid
+        · subst hr
+          simp [step, hf]
+        · simp only [step, hf, hr, ↓reduceIte]
+          cases t with
+          | node e ks => simp [Tree.erase, Tree.mapEnts, Tree.ent, cleanPGs]
+    rcases List.mem_cons.mp hu with rfl | hu'
+    · -- `u` is detached first: it is gone at once and never comes back
+      intro hmem
+      have hin := detachAll_subset vs _ hn' u hmem
+      cases hf : t.findSub u with
+      | none =>
+        have : u ∉ t.uids := by
+          intro hm
+          obtain ⟨x, hxs, hxu⟩ := List.mem_map.mp hm
+          have := findSub_some_of_mem t x hxs
+          rw [hxu, hf] at this
+          exact this rfl
+        exact this (detach_uids_subset t u hn u hin)
+      | some s =>
+        have h := (detach_exact t s u hn hf hroot).2
+        have hnd := (h.nodup_iff).mpr hn
+        have hus : u ∈ s.uids := by
+          obtain ⟨_, hu0⟩ := findSub_mem t u s hf
+          cases s with
+          | node e ks => simp [Tree.uids, subs_node, Tree.ent] at hu0 ⊢; left; exact hu0.symm
+        exact (List.nodup_append.mp hnd).2.2 u hin u hus rfl
+    · exact ih _ hn' u hu' (by rw [hrootEq]; exact hroot)
+
+example : (detachAll exTree [2, 5]).uids = [1] := by decide
+
 end GeoVerif.Ws
